@@ -151,6 +151,22 @@ class Check(Property):
                           tname=rng.choice(["float", "float", "fraction", "decimal"])))
         out.append(mk("dimensionless", {}, ""))
         out.append(mk("dimensionless", {}, "~P"))
+        # magnitude + unit joining (join_mu) on real unit renderings, negative-only exponents included
+        for _ in range(600 if self.tier == "quick" else 6000):
+            k = rng.randint(1, 3)
+            neg_only = rng.random() < 0.5
+            items = {n: Fraction(rng.choice([-1, -2, -1]) if neg_only else rng.choice([1, 2, -1, -2])) for n in rng.sample(names, k)}
+            spec = rng.choice(["", "~"]) + rng.choice(["D", "C", "P", "H", ""])
+            c = mk("join", items, spec)
+            uu = regs.ureg("float")
+            try:
+                ustr = format(uu.Unit(regs.pint_uc(uu, c["u"], "float", canonical=True)), spec)
+            except Exception:  # noqa: BLE001
+                continue
+            c["m"] = rng.choice(["3", "2.5", "-1", "1e-05"])
+            c["ustr"] = ustr
+            c["ops"] = [{"op": "format", "f": "join_mu", "joint": "{} {}", "m": c["m"], "u": ustr}]
+            out.append(c)
         # split_format
         mspecs = ["", ".3f", "e", "g", "n", ".2e", "08.3f", "+.1f", "d", ",.2f", "#.3g"]
         flags = ["", "D", "C", "P", "H", "L", "Lx", "~", "~P", "~C", "~L", "#~P", "~#D"]
@@ -180,6 +196,9 @@ class Check(Property):
                     warnings.simplefilter("ignore")
                     return list(split_format(c["spec"], c["default"], c["sep"]))
             return [capture(run)]
+        if c["kind"] == "join":
+            from pint.delegates.formatter._format_helpers import join_mu
+            return [capture(lambda: join_mu("{} {}", c["m"], c["ustr"]))]
         u, un = self.unit(c)
         return [capture(lambda: format(un, c["spec"]))]
 
@@ -278,6 +297,25 @@ class Check(Property):
                             v.append(f"{tag}: {s!r} parses back to {back!r}{known}")
                 except Exception as exc:  # noqa: BLE001
                     v.append(f"{tag}: {s!r} does not parse back: {type(exc).__name__}: {exc}{known}")
+        # a quantity renders as its magnitude followed by the whole unit rendering (a leading "1" of "1 / x" may go)
+        if key in ("D", "C", "P", "H") and before:
+            for m in (3, 2.5):
+                q = u.Quantity(m, un)
+                try:
+                    fq = format(q, spec)
+                except Exception as exc:  # noqa: BLE001
+                    v.append(f"{tag}: formatting the quantity {q!r} raised {type(exc).__name__}: {exc}")
+                    continue
+                tail = s[2:] if s.startswith("1 / ") else s
+                if not (fq.endswith(" " + tail) and fq.startswith(str(m))):
+                    v.append(f"{tag}: quantity {m} renders as {fq!r}, the unit alone as {s!r}")
+                elif key in ("D", "C") and exact and all_mult and (not short) and all(k.isidentifier() and k.isascii() for k in want):
+                    try:
+                        q2 = u.Quantity(fq)
+                        if not (q2.units == q.units and q2.magnitude == q.magnitude):
+                            v.append(f"{tag}: {fq!r} parses back to {q2!r}, not {q!r}")
+                    except Exception as exc:  # noqa: BLE001
+                        v.append(f"{tag}: {fq!r} does not parse back: {type(exc).__name__}: {exc}")
         # str(q) round trip
         mult = all(u._units[k].is_multiplicative for k in before)   # "3 degC" is a refused product by design (C06)
         if key == "D" and not short and spec == "" and before and mult and all(k.isidentifier() and k.isascii() for k in before) and exact:
